@@ -32,7 +32,7 @@ from .. import core
 from .. import hyp_common as hc
 
 TOL = 1e-9
-TAN_INVS = ["FormPreserved", "Normalised", "FrameValid", "AlongLaws", "TurnLaws", "Transport", "SecondsValid", "EmitObs"]
+TAN_INVS = ["FormPreserved", "Normalised", "EditsSound", "FrameValid", "AlongLaws", "TurnLaws", "Transport", "SecondsValid", "EmitObs"]
 POLY_INVS = ["CosTableSound", "SurfaceCaseLaws", "AngleCaseLaws", "RadiusCaseLaws", "AdmissibleIffPositive", "EmitCase"]
 SCALES = (1.0, 2.0, 1.0 / 3.0, 5.0, 0.5)
 
@@ -105,7 +105,7 @@ def tanh_arg(t):
 # ------------------------------------------------------------------------------------------
 # tangent vectors: one frame of HypTangent.tla
 # ------------------------------------------------------------------------------------------
-def check_frame(n, ob, seconds, idx):
+def check_frame(n, ob, seconds, idx, history=()):
     """All obligations of one emitted frame.  Returns (violations, evaluations, actions) where a violation is
     (key, clause, detail)."""
     H = hc.H()
@@ -285,12 +285,109 @@ def check_frame(n, ob, seconds, idx):
                     bad("law_of_cosines.library_values", "cosh d = %r but cosh t1 cosh t2 - sinh t1 sinh t2 cos(angle) = %r" % (ch, law), sub2)
             except Exception as e:
                 bad("raised:law_of_cosines", err_text(e), sub2)
+    # --- a history of queries on the SAME object: every answer is still the exact value (queries are read-only)
+    def run_history(tv, label, unit_ok=True):
+        nonlocal evals
+        other = make_tv(H, ob["turns"][1 + idx % (len(ob["turns"]) - 1)]["tv"], 2.0, 0)
+        turn = ob["turns"][1 + idx % (len(ob["turns"]) - 1)]
+        k_al = 0
+        for step, q in enumerate(history):
+            sub = "%s:step%d=%s" % (label, step, q)
+            count("history." + q)
+            evals += 1
+            try:
+                if q == "origin_to":
+                    fo = step % 2 == 0
+                    mis = dir_mismatch(tv.origin_to(force_oriented=fo) @ H.TangentVector.get_base_tangent(n), tan)
+                    if mis:
+                        bad("history.origin_to", "after %s: %s" % (list(history[:step]), mis), sub)
+                        return
+                elif q == "point_along":
+                    al = ob["along"][(idx + k_al) % len(ob["along"])]
+                    k_al += 3
+                    got = np.asarray(tv.point_along(tanh_arg(al["t"])).proj_data, float)
+                    if not (got.shape == (n + 1,) and hc.proj_close(got, np.array(al["q"], float), TOL)):
+                        bad("history.point_along", "after %s: tanh t = %s: library %r, spec %r" % (list(history[:step]), al["t"], got.tolist(), al["q"]), sub)
+                        return
+                elif q == "isometry_to":
+                    sec = seconds[(idx + step) % len(seconds)]
+                    mis = dir_mismatch(tv.isometry_to(make_tv(H, sec, 3.0, 0)) @ tv, sec)
+                    if mis:
+                        bad("history.isometry_to", "after %s: target %s: %s" % (list(history[:step]), {f: sec[f] for f in ("p", "v", "d")}, mis), sub)
+                        return
+                elif q == "angle":
+                    with np.errstate(all="ignore"):
+                        ang = float(tv.angle(other)) if step % 2 == 1 else float(other.angle(tv))
+                    if not (np.isfinite(ang) and abs(math.cos(ang) - rat(turn["cos"])) <= TOL * max(1.0, float(np.abs(px).max()))):
+                        bad("history.angle", "after %s: angle %r, spec cos %s" % (list(history[:step]), ang, turn["cos"]), sub)
+                        return
+                elif q == "normalized":
+                    nv = tv.normalized()
+                    mis = dir_mismatch(nv, tan)
+                    vv = np.asarray(nv.vector, float)
+                    if mis or not abs(hc.mink(vv, vv) - 1) <= TOL * max(1.0, float(np.abs(px).max())):
+                        bad("history.normalized", "after %s: %s" % (list(history[:step]), mis or "<v,v> = %r" % float(hc.mink(vv, vv))), sub)
+                        return
+                else:
+                    raise core.MachineryFailure("unknown query %r in HISTORY" % q)
+                mis = dir_mismatch(tv, tan)
+                if mis:
+                    bad("history.object_changed", "the tangent vector itself after %s: %s" % (list(history[:step + 1]), mis), sub)
+                    return
+            except core.MachineryFailure:
+                raise
+            except Exception as e:
+                bad("raised:history", "after %s: %s" % (list(history[:step]), err_text(e)), sub)
+                return
+
+    if history:
+        try:
+            run_history(make_tv(H, tan, 1.0, form), "float")
+        except core.MachineryFailure:
+            raise
+        except Exception as e:
+            bad("raised:history", err_text(e))
+        # integer hyperboloid coordinates handed over as INTEGER arrays
+        if ob["guards"]["integral"]:
+            try:
+                itv = H.TangentVector(np.array([tan["ph"], tan["v"]], dtype=np.int64))
+                for al in ob["along"]:
+                    count("integer.point_along")
+                    evals += 1
+                    got = np.asarray(itv.point_along(tanh_arg(al["t"])).proj_data, float)
+                    if not (got.shape == (n + 1,) and hc.proj_close(got, np.array(al["q"], float), TOL)):
+                        bad("integer_data.point_along", "integer tangent data: tanh t = %s: library %r, spec %r" % (al["t"], got.tolist(), al["q"]),
+                            "tanh=%d/%d" % tuple(al["t"]))
+                        break
+                if idx % 2 == 0:
+                    itv = H.TangentVector(H.Point(np.array(tan["ph"], dtype=np.int64)), np.array(tan["v"], dtype=np.int64))
+                run_history(itv, "integer")
+            except core.MachineryFailure:
+                raise
+            except Exception as e:
+                bad("raised:integer_data", err_text(e))
+        # the library's own base tangent vector is the tangent vector of the identity frame
+        if ob["len"] == 0:
+            try:
+                run_history(H.TangentVector.get_base_tangent(n), "base_tangent")
+                bt = H.TangentVector.get_base_tangent(n)
+                for al in ob["along"]:
+                    count("base_tangent.point_along")
+                    evals += 1
+                    got = np.asarray(bt.point_along(tanh_arg(al["t"])).proj_data, float)
+                    if not (got.shape == (n + 1,) and hc.proj_close(got, np.array(al["q"], float), TOL)):
+                        bad("base_tangent.point_along", "tanh t = %s: library %r, spec %r" % (al["t"], got.tolist(), al["q"]), "tanh=%d/%d" % tuple(al["t"]))
+                        break
+            except core.MachineryFailure:
+                raise
+            except Exception as e:
+                bad("raised:base_tangent", err_text(e))
     return out, evals, acts
 
 
 def _frame_job(args):
-    n, ob, seconds, idx = args
-    return check_frame(n, ob, seconds, idx)
+    n, ob, seconds, idx, history = args
+    return check_frame(n, ob, seconds, idx, history)
 
 
 def parse_table(stdout, tag):
@@ -323,7 +420,9 @@ def tangent(run, n, r, pool, limit=None, rng=None):
         rest = [e for e in obs if e["len"] > 1]
         rng.shuffle(rest)
         obs = keep + rest[:max(0, limit - len(keep))]
-    jobs = [(n, ob, seconds, i) for i, ob in enumerate(obs)]
+    history = parse_table(r.stdout, "HISTORY")
+    edits = parse_table(r.stdout, "EDITS")
+    jobs = [(n, ob, seconds, i, history) for i, ob in enumerate(obs)]
     results = pool.map(_frame_job, jobs, chunksize=8) if pool else map(_frame_job, jobs)
     for (viol, evals, acts), ob in zip(results, obs):
         run.evaluations += evals
@@ -341,10 +440,10 @@ def tangent(run, n, r, pool, limit=None, rng=None):
         run.sample(dict(kind="tangent frame", n=n, tangent=e["tv"], along=e["along"][:2],
                         turn=dict(cos=e["turns"][1]["cos"], tv=e["turns"][1]["tv"], coshd=e["turns"][1]["coshd"][0][:2]),
                         isometry_to_target=seconds[1]))
-    composite(run, n, every, seconds)
+    composite(run, n, every, seconds, edits)
 
 
-def composite(run, n, obs, seconds):
+def composite(run, n, obs, seconds, edits=()):
     """the same operations on one composite TangentVector holding every frame of the dimension"""
     H = hc.H()
     if len(obs) < 2:
@@ -410,6 +509,67 @@ def composite(run, n, obs, seconds):
                 i = first_bad(badm)
                 run.violation(key + ":isometry_to:%d:%d" % (j, i), "composite.isometry_to",
                               dict(n=n, tangent=obs[i]["tv"], target=sec, observed="basepoint %r direction %r" % (got[0][i].tolist(), got[1][i].tolist())))
+        # --- item assignment on the composite object, then the same queries on the edited array (use -> edit -> use)
+        if edits:
+            tvs = H.TangentVector(H.Point(P.copy()), V.copy())          # unit vectors
+            cur = [o["tv"] for o in obs]
+            cur_al = [o["along"] for o in obs]
+            base = H.TangentVector.get_base_tangent(n)
+            target = seconds[1 % len(seconds)]
+
+            def query(tag, jt):
+                """origin_to, point_along, isometry_to of the whole array against the exact values of its current entries"""
+                WXc = np.array([spec_dir(c)[0] for c in cur])
+                WVc = np.array([spec_dir(c)[1] for c in cur])
+                sc = np.maximum(1.0, np.abs(WXc).max(-1))
+                run.case(key=(key, "edit", tag), action="composite.after_edit")
+                got = lib_dir(tvs.origin_to() @ base)
+                if got is None or got[0].shape != WXc.shape:
+                    return ("composite.edit.origin_to", 0, "not tangent vectors / shape")
+                badm = (np.abs(got[0] - WXc).max(-1) > TOL * sc) | (np.abs(got[1] - WVc).max(-1) > TOL * sc)
+                if badm.any():
+                    i = first_bad(badm)
+                    return ("composite.edit.origin_to", i, "origin_to @ base tangent: basepoint %r direction %r" % (got[0][i].tolist(), got[1][i].tolist()))
+                t = np.array([tanh_arg(a[jt]["t"]) for a in cur_al])
+                want = np.array([a[jt]["q"] for a in cur_al], float)
+                gq = np.asarray(tvs.point_along(t).proj_data, float)
+                if gq.shape != want.shape:
+                    return ("composite.edit.point_along", 0, "shape %r" % (gq.shape,))
+                badm = ~proj_close_rows(gq, want)
+                if badm.any():
+                    i = first_bad(badm)
+                    return ("composite.edit.point_along", i, "point_along(atanh %s) = %r, spec %r" % (cur_al[i][jt]["t"], gq[i].tolist(), want[i].tolist()))
+                sx, sv = spec_dir(target)
+                tgt = H.TangentVector(H.Point(np.tile(np.array(target["p"], float), (k, 1))), np.tile(sv, (k, 1)))
+                got = lib_dir(tvs.isometry_to(tgt) @ tvs)
+                if got is None or got[0].shape != WXc.shape:
+                    return ("composite.edit.isometry_to", 0, "not tangent vectors / shape")
+                sc2 = np.maximum(sc, np.abs(sx).max())
+                badm = (np.abs(got[0] - sx).max(-1) > TOL * sc2) | (np.abs(got[1] - sv).max(-1) > TOL * sc2)
+                if badm.any():
+                    i = first_bad(badm)
+                    return ("composite.edit.isometry_to", i, "image basepoint %r direction %r" % (got[0][i].tolist(), got[1][i].tolist()))
+                return None
+
+            res = query("before", 0)
+            done = []
+            for ne, ed in enumerate(edits):
+                if res:
+                    break
+                pos = (ed["pos"] - 1) % k
+                sec = seconds[(ed["sec"] - 1) % len(seconds)]
+                if ne % 2 == 0:
+                    tvs[pos] = make_tv(H, sec, 1.0, 1)
+                else:
+                    tvs[pos] = np.array([np.array(sec["p"], float), np.array(sec["v"], float) / sec["d"]])
+                cur[pos] = sec
+                cur_al[pos] = sec["along"]
+                done.append(dict(pos=pos, tangent={f: sec[f] for f in ("p", "v", "d")}))
+                res = query("after edit %d" % (ne + 1), (ne + 1) % len(obs[0]["along"]))
+            if res:
+                clause, i, text = res
+                run.violation(key + ":edits=%d:%s:%d" % (len(done), clause, i), clause,
+                              dict(n=n, edits_applied=done, entry=i, entry_tangent={f: cur[i][f] for f in ("p", "v", "d")}, observed=text))
     except Exception as e:
         run.violation(key + ":raise", "raised:composite", dict(n=n, error=err_text(e)))
 
@@ -508,8 +668,64 @@ def qval(e, name):
     return rat(q["x"]) + rat(q["y"]) * math.sqrt(e["r"])
 
 
+def sweep_case(e):
+    """vertex-count sweep: a regular n-gon has exactly n vertices (composite shape (n,)), all at the same radius, with n equal
+    sides of positive length and equal interior angles"""
+    H = hc.H()
+    k = e["kase"]
+    n, dim = k["n"], k["dim"]
+    out = []
+    if "t" in k:
+        R, a = tanh_arg(k["t"]), None
+        key = "polygon-sweep:n=%d:tanhR=%d/%d:dim=%d" % (n, k["t"][0], k["t"][1], dim)
+        args = dict(radius=R)
+    else:
+        R, a = None, math.pi * k["a"][0] / k["a"][1]
+        key = "polygon-sweep:n=%d:a=%dpi/%d:dim=%d" % (n, k["a"][0], k["a"][1], dim)
+        args = dict(angle=a)
+
+    def bad(clause, observed):
+        out.append((key + ":" + clause, clause, dict(case=k, expected_vertices=e["count"], observed=observed)))
+    try:
+        poly = H.Polygon.regular_polygon(n, dimension=dim, **args)
+        V = poly.get_vertices()
+        data = np.asarray(V.proj_data, float)
+        if data.shape != (e["count"], dim + 1) or tuple(V.shape) != (e["count"],) or tuple(poly.shape) != ():
+            bad("polygon.vertex_count", "vertex array of shape %r, vertices shape %r, polygon shape %r" % (data.shape, tuple(V.shape), tuple(poly.shape)))
+            return out
+        edges = np.asarray(poly.get_edges().proj_data)
+        if edges.shape[:-2] != (e["count"],):
+            bad("polygon.edge_count", "edge array of shape %r" % (edges.shape,))
+            return out
+        if not (np.isfinite(data).all() and (hc.mink(data, data) < 0).all()):
+            bad("polygon.vertices_interior", "some vertex is not an interior point")
+            return out
+        with np.errstate(all="ignore"):
+            rad = np.asarray(V.distance(H.Point.get_origin(dim)), float)
+            nxt = H.Point(np.roll(data, -1, axis=0).copy())
+            prv = H.Point(np.roll(data, 1, axis=0).copy())
+            side = np.asarray(V.distance(nxt), float)
+            ang = np.asarray(V.unit_tangent_towards(prv).angle(V.unit_tangent_towards(nxt)), float)
+        chr_, chs = np.cosh(rad), np.cosh(side)
+        if not (np.isfinite(rad).all() and (np.abs(chr_ - chr_[0]) <= TOL * chr_[0]).all()):
+            bad("polygon.equal_radii", "distances from the origin range over [%r, %r]" % (float(rad.min()), float(rad.max())))
+        elif "coshsqR" in e and not abs(chr_[0] ** 2 - qval(e, "coshsqR")) <= TOL * qval(e, "coshsqR"):
+            bad("polygon.radius", "cosh^2 R = %r, spec %r" % (float(chr_[0] ** 2), qval(e, "coshsqR")))
+        elif not (np.isfinite(side).all() and (side > 1e-6).all() and (np.abs(chs - chs[0]) <= TOL * max(1.0, float(chr_[0])) * chs[0]).all()):
+            # (tolerance relative to the size of the hyperboloid coordinates, cosh R ~ n/pi for the angle-given polygons)
+            bad("polygon.equal_sides", "side lengths range over [%r, %r] (vertex %d)" % (float(np.nanmin(side)), float(np.nanmax(side)), int(np.nanargmin(side))))
+        elif not (ang.shape == (n,) and np.isfinite(ang).all() and (np.abs(np.cos(ang) - np.cos(ang[0])) <= 1e-8).all()
+                  and (a is None or abs(math.cos(ang[0]) - math.cos(a)) <= 1e-8)):
+            bad("polygon.interior_angle", "interior angles range over [%r, %r], requested %r" % (float(np.nanmin(ang)), float(np.nanmax(ang)), a))
+    except Exception as ex:
+        bad("raised:regular_polygon", err_text(ex))
+    return out
+
+
 def poly_case(e):
     """returns list of (key, clause, detail)"""
+    if e["kase"]["kind"] == "sweep":
+        return sweep_case(e)
     H = hc.H()
     k = e["kase"]
     n, dim, kind = k["n"], k["dim"], k["kind"]
@@ -602,7 +818,7 @@ def poly_case(e):
 
 
 def polygons_tlc(run, quick):
-    c = core.cfg(constants=dict(Dims={2, 3} if quick else {2, 3, 4, 5}, MaxN=12 if quick else 16), invariants=POLY_INVS)
+    c = core.cfg(constants=dict(Dims={2, 3} if quick else {2, 3, 4, 5}, MaxN=12 if quick else 16, MaxSweep=200 if quick else 400), invariants=POLY_INVS)
     return run.tlc("hyp/HypPolygon.tla", c, name="HypPolygon", workers=1, emit_prefix="CASE ")
 
 
@@ -614,7 +830,7 @@ def polygons(run, r, pool):
         run.traces += 1
         for key, clause, detail in viol:
             run.violation(key, clause, detail)
-    for kind in ("angle", "radius"):
+    for kind in ("angle", "radius", "sweep"):
         ex = [e for e in cases if e["kase"]["kind"] == kind]
         if ex:
             run.sample(dict(kind="regular polygon (%s given)" % kind, **ex[len(ex) // 2]))
